@@ -1,6 +1,7 @@
 import Gmx.Model.Action
 import Gmx.Gen.C23Shapes
 import Gmx.Model.Life
+import Gmx.Lemmas.Life2
 /-!
 # C23 — user actions complete or cancel exactly once and escrow always goes home
 -/
@@ -338,5 +339,116 @@ example : actRun ⟨.pending, false, 100, 5, 0, 0, 0, 1000, 0⟩
     [.execute .soft 3, .execute (.success 7) 1, .close false true false, .close true false false]
     = ⟨.cancelled, true, 0, 0, 100, 2, 3, 1000, 0⟩ := by decide
 example : (actStep ⟨.pending, false, 100, 5, 0, 0, 0, 1000, 0⟩ (.close false true false)) = none := by decide
+
+/-! ### ===== Stage 3: deposits, withdrawals and swap orders interleaved (`Gmx.Life2`) =====
+Tied to the real `gmsol_store::entry` by `harness/h_store/src/bin/life2.rs` (engine `l2`). Histories are
+arbitrary `Op` lists of several users on one market; `run` returns the final state and the events of the
+successful transactions. -/
+section Life2
+open Gmx.Life2
+
+/-- (d) **Close policy**: the owner may close at any time, a keeper only once the action is completed or
+cancelled, nobody else — for every kind of action. -/
+theorem l2_close_policy (s : Life2.St) (who : Life.Who) (u k i : Nat) :
+    (Life2.close s who u k i).isSome = true ↔
+      ∃ act, s.acts u k i = some act ∧ (who = .user u ∨ (who = .keeper ∧ act.state ≠ 0)) := by
+  constructor
+  · intro h
+    cases hc : Life2.close s who u k i with
+    | none => rw [hc] at h; cases h
+    | some s' => obtain ⟨act, ha, hp, _⟩ := close_some hc; exact ⟨act, ha, hp⟩
+  · rintro ⟨act, ha, hp⟩
+    unfold Life2.close
+    simp only [ha]
+    have : ¬ ¬ (who = .user u ∨ (who = .keeper ∧ act.state ≠ 0)) := fun h => h hp
+    simp [this]
+
+/-- (b) **Escrow goes home**: closing empties the slot and credits the owner with every escrowed token of
+every kind — collateral and market tokens — exactly (whatever a successful execution left there: the minted
+market tokens of a deposit, the paid-out collateral of a withdrawal or swap, or the untouched escrow of a pending
+or cancelled action); nobody else's balance, no vault and no recorded balance moves. -/
+theorem l2_close_returns_escrow {s s' : Life2.St} {who : Life.Who} {u k i : Nat}
+    (h : Life2.close s who u k i = some s') :
+    ∃ act, s.acts u k i = some act ∧ s'.acts u k i = none ∧
+      s'.users u = ⟨(s.users u).long + act.escLong, (s.users u).short + act.escShort, (s.users u).mt + act.escMt⟩ ∧
+      (∀ v, v ≠ u → s'.users v = s.users v) ∧
+      (∀ a b c, ¬ (a = u ∧ b = k ∧ c = i) → s'.acts a b c = s.acts a b c) ∧
+      s'.vaultLong = s.vaultLong ∧ s'.vaultShort = s.vaultShort ∧ s'.recLong = s.recLong ∧ s'.recShort = s.recShort ∧
+      Life2.supply s' = Life2.supply s := by
+  obtain ⟨act, ha, _, rfl⟩ := close_some h
+  refine ⟨act, ha, by simp [acts_setAct], by simp [Life2.setAct, Life2.setUser], ?_, ?_, rfl, rfl, rfl, rfl, rfl⟩
+  · intro v hv; simp [Life2.setAct, Life2.setUser, hv]
+  · intro a b c hne; simp [acts_setAct, hne, Life2.setUser]
+
+/-- a cancelled (soft-failed) execution moves no token at all: escrow stays whole until close returns it. -/
+theorem l2_soft_failure {s s' : Life2.St} {who : Life.Who} {u k i fee x y : Nat} {throw fail : Bool} {paid : Nat}
+    (h : Life2.exec s who u k i fee throw fail x y = some (s', .cancelled, paid)) :
+    throw = false ∧ ∃ act, s.acts u k i = some act ∧ s'.acts u k i = some { act with state := 2 } ∧
+      s'.users = s.users ∧ s'.vaultLong = s.vaultLong ∧ s'.vaultShort = s.vaultShort ∧
+      s'.recLong = s.recLong ∧ s'.recShort = s.recShort ∧ Life2.supply s' = Life2.supply s := by
+  obtain ⟨_, act, ha, _, _, hcase⟩ := exec_some h
+  rcases hcase with ⟨_, ht, rfl⟩ | ⟨ho, _⟩
+  · exact ⟨ht, act, ha, by simp [acts_setAct], rfl, rfl, rfl, rfl, rfl, rfl⟩
+  · cases ho
+
+/-- (a) **Exactly once**, one transaction: only a pending action executes, it ends completed or cancelled,
+and it can never be executed again (by anyone, with any arguments). -/
+theorem l2_exec_once {s s' : Life2.St} {who : Life.Who} {u k i fee x y : Nat} {throw fail : Bool} {o : Life2.Outcome} {paid : Nat}
+    (h : Life2.exec s who u k i fee throw fail x y = some (s', o, paid)) :
+    who = .keeper ∧ (∃ act, s.acts u k i = some act ∧ act.state = 0) ∧
+    (∃ act', s'.acts u k i = some act' ∧ (act'.state = 1 ∨ act'.state = 2)) ∧
+    ∀ who' fee' throw' fail' x' y', Life2.exec s' who' u k i fee' throw' fail' x' y' = none := by
+  obtain ⟨hw, act, ha, hst, _, hcase⟩ := exec_some h
+  have hafter : ∃ act', s'.acts u k i = some act' ∧ (act'.state = 1 ∨ act'.state = 2) := by
+    rcases hcase with ⟨_, _, rfl⟩ | ⟨_, _, _, hcomp⟩
+    · exact ⟨{ act with state := 2 }, by simp [acts_setAct], Or.inr rfl⟩
+    · obtain ⟨act', h1, h2, _⟩ := complete_some hcomp
+      exact ⟨act', by rw [h2]; simp [acts_setAct], Or.inl h1⟩
+  refine ⟨hw, ⟨act, ha, hst⟩, hafter, ?_⟩
+  obtain ⟨act', ha', hs'⟩ := hafter
+  intro who' fee' throw' fail' x' y'
+  unfold Life2.exec
+  by_cases hk : who' = .keeper
+  · have : act'.state ≠ 0 := by omega
+    simp [hk, ha', this]
+  · simp [hk]
+
+/-- (a) **Exactly once**, every history from an empty market: for every slot, the number of executions
+(completions + cancellations) never exceeds the number of creations, and closes + (1 if still open) equals
+creations — so each incarnation of an action is executed at most once and closed at most once. -/
+theorem l2_exactly_once_history (l sh : Nat) (now : Int) (ops : List Life2.Op) (u k i : Nat) :
+    ((Life2.run (Life2.init l sh now) ops).2.countP (isExecuted u k i)
+        ≤ (Life2.run (Life2.init l sh now) ops).2.countP (isCreated u k i)) ∧
+    ((Life2.run (Life2.init l sh now) ops).2.countP (isClosed u k i)
+        + openCount (Life2.run (Life2.init l sh now) ops).1 u k i
+        = (Life2.run (Life2.init l sh now) ops).2.countP (isCreated u k i)) := by
+  obtain ⟨h1, h2⟩ := run_counts (Life2.init l sh now) ops u k i
+  have o0 : openCount (Life2.init l sh now) u k i = 0 := by simp [openCount, Life2.init]
+  have p0 : pendingCount (Life2.init l sh now) u k i = 0 := by simp [pendingCount, Life2.init]
+  exact ⟨by omega, by omega⟩
+
+/-- other users' and other slots' actions are untouched by an execution (interleaving is safe). -/
+theorem l2_exec_frame {s s' : Life2.St} {who : Life.Who} {u k i fee x y : Nat} {throw fail : Bool} {o : Life2.Outcome} {paid : Nat}
+    (h : Life2.exec s who u k i fee throw fail x y = some (s', o, paid)) :
+    s'.users = s.users ∧ ∀ a b c, ¬ (a = u ∧ b = k ∧ c = i) → s'.acts a b c = s.acts a b c := by
+  obtain ⟨_, act, _, _, _, hcase⟩ := exec_some h
+  rcases hcase with ⟨_, _, rfl⟩ | ⟨_, _, _, hcomp⟩
+  · exact ⟨rfl, fun a b c hne => by simp [acts_setAct, hne]⟩
+  · obtain ⟨act', _, h2, h3, _⟩ := complete_some hcomp
+    exact ⟨h3, fun a b c hne => by rw [h2]; simp [acts_setAct, hne]⟩
+
+/-! non-vacuity: two users, a deposit, a withdrawal of part of the minted tokens, a swap, soft failure, closes -/
+private def l2demo : List Life2.Op :=
+  [.create 0 0 0 2000 300 false 500000, .price 0, .exec .keeper 0 0 0 300000 true false 600 0, .exec .keeper 0 0 0 1 false false 5 0,
+   .close .keeper 0 0 0, .create 0 1 0 100 0 false 0, .create 1 2 1 40 0 false 300000, .exec .keeper 0 1 0 7 true false 333 50,
+   .exec .keeper 1 2 1 9 false true 0 0, .close (.user 2) 1 2 1, .close .keeper 1 2 1, .close (.user 0) 0 1 0]
+example : (Life2.run (Life2.init 10000 5000 100) l2demo).2 =
+    [.created 0 0 0, .none, .executed 0 0 0 .completed, .none, .closed 0 0 0, .created 0 1 0, .created 1 2 1,
+     .executed 0 1 0 .completed, .executed 1 2 1 .cancelled, .none, .closed 1 2 1, .closed 0 1 0] := by decide
+example : let s := (Life2.run (Life2.init 10000 5000 100) l2demo).1
+    (s.users 0).long = 8333 ∧ (s.users 0).short = 4750 ∧ (s.users 0).mt = 500 ∧ (s.users 1).long = 10000 ∧
+    s.vaultLong = 1667 ∧ s.recLong = 1667 ∧ Life2.supply s = 500 := by decide
+
+end Life2
 
 end Gmx.C23
